@@ -7,6 +7,7 @@ same two methods of the working tree; oracle = vf.oracles.lines.
 from __future__ import annotations
 
 import os
+import re
 
 import io
 import random
@@ -236,6 +237,44 @@ def main(rec):
                 if ln.strip() not in outlines.get(lang, ()):
                     rec.violation("user-splicer-line-altered-by-layout-directives:%s" % lang,
                                   "%s: the line %r of a declaration-level %s splicer does not appear unchanged in the output" % (sp["name"], ln, lang), sp)
+    # (a3) 132 columns with identifiers of ordinary length: every single-row library again with its parameters renamed to
+    # 24 / 31 / 40-character names (the scan above only sees the short names of the tables)
+    lspecs = []
+    singles = [x for x in gen.libraries(thorough, count=0, salt="c13long") if "fortran" in (x[1]["options"].get("wrap_fortran") and ("fortran",) or ())]
+    lens_ = (24, 31, 40) if thorough else ((24, 31, 40)[common.seed() % 3], 40)
+    for name, d, meta in singles:
+        for L in sorted(set(lens_)):
+            for cfi in (False, True):
+                if cfi and not thorough and (len(lspecs) + common.seed()) % 2:
+                    continue
+                d2, n = gen.long_names(d, L)
+                if not n:
+                    continue
+                if cfi:
+                    d2["options"] = dict(d2["options"], F_CFI=True)
+                d2["options"] = dict(d2["options"], wrap_python=False, wrap_lua=False)
+                sp = gen.spec_for(d2, "%s+names%d%s" % (name, L, "+cfi" if cfi else ""))
+                sp["monitors"] = ["lines"]
+                lspecs.append(sp)
+    lres = pool.run_cases("vf.shroudrun", lspecs, timeout=300)
+    for sp, r in zip(lspecs, lres):
+        if r.get("exc") or r.get("exit") not in (0, None):
+            rec.count("long_name_descriptions_rejected")      # e.g. F_CFI on a form it does not support: not C13's question
+            continue
+        if workloads.bad_run(rec, sp, r):
+            continue
+        rec.count("long_name_runs")
+        for rel, text in r["outputs"].items():
+            if rel.endswith((".f", ".f90", ".F", ".F90")):
+                rec.count("fortran_files_scanned_long_names")
+                for n, ln, txt in LO.fortran_overlong(text):
+                    stmt = re.sub(r"\w*_long_argument_name\w*", "ARG", txt.strip())
+                    stmt = re.sub(r"\bf\d+\w*|\bg[cx]_\w+", "NAME", stmt)
+                    rec.violation("fortran-line>132:long-names:%s" % re.sub(r"\d+", "N", stmt)[:70],
+                                  "%s:%d has %d columns: %s" % (rel, n, ln, txt), sp)
+        for mech, detail in r["events"]["line_violations"]:
+            rec.violation(mech, detail, sp)
+        rec.case(key="longnames:" + sp["name"])
     # (b) fuzz
     nchunks = 64 if thorough else 16
     per = 80000 if thorough else 12500
